@@ -202,7 +202,7 @@ def _intensities(bw, targ, lazy):
     "sum_to_one",
     bloch_case,
     quick=160,
-    thorough=3200,
+    thorough=8000,
     tol="sum 1 +- 1e-4; lazy == eager 1e-10 absolute",
     rule=">=5 beams retained and some beam other than (000) exceeds 1e-3 at some thickness",
     nontrivial_floor=0.3,
@@ -240,7 +240,7 @@ def check_sum_to_one(case, ctx):
     "zero_thickness",
     lambda: bloch_case(force_zero=True),
     quick=160,
-    thorough=3200,
+    thorough=8000,
     tol="I_000(0) = 1 +- 1e-5; every other beam < 1e-10 (complex64 eigenvectors: observed <= 1e-12)",
     rule=">=5 beams retained (the eigenvector matrix is not trivial)",
     nontrivial_floor=0.5,
@@ -274,7 +274,7 @@ def check_zero_thickness(case, ctx):
     "expm_vs_eigen",
     bloch_case,
     quick=160,
-    thorough=3200,
+    thorough=8000,
     tol="1e-5 absolute on intensities (direct beam = 1)",
     rule=">=5 beams retained and some beam other than (000) exceeds 1e-3 at some thickness",
     nontrivial_floor=0.3,
@@ -309,20 +309,31 @@ def check_expm_vs_eigen(case, ctx):
 
 # ----------------------------------------------------------------------- ensemble
 @st.composite
+def _angles(draw, pairs=False, max_size=3):
+    """Mostly >= 2 members (by construction, not left to the size distribution of lists)."""
+    n = draw(st.sampled_from([1, 2, 2, 3, 3][: 2 * max_size - 1]))
+    if pairs:
+        return [[draw(_angle()), draw(_angle())] for _ in range(n)]
+    return [draw(_angle()) for _ in range(n)]
+
+
+@st.composite
 def ensemble_case(draw):
     case = draw(bloch_case(with_rotation=False))
-    case["n_target"] = min(case["n_target"], 80)
-    angles = st.lists(_angle(), min_size=1, max_size=3)
+    case["n_target"] = min(max(case["n_target"], 20), 80)
     kind = draw(st.sampled_from(["x", "y", "x,y", "xy"]))
     if kind in ("x", "y"):
-        rot = [kind, draw(angles)]
+        rot = [kind, draw(_angles())]
     elif kind == "x,y":
-        rot = ["x", draw(angles), "y", draw(st.lists(_angle(), min_size=1, max_size=2))]
+        rot = ["x", draw(_angles()), "y", draw(_angles(max_size=2))]
     else:
-        rot = ["xy", draw(st.lists(st.tuples(_angle(), _angle()).map(list), min_size=1, max_size=3))]
+        rot = ["xy", draw(_angles(pairs=True))]
     case["rotation"] = rot
     t = case["thicknesses"]
-    case["thicknesses"] = t if isinstance(t, list) else [t]
+    t = t if isinstance(t, list) else [t]
+    if max(t) < 50.0:
+        t = t + [100.0]  # thick enough for diffracted beams to build up
+    case["thicknesses"] = t
     return case
 
 
@@ -331,10 +342,10 @@ def ensemble_case(draw):
     "ensemble",
     ensemble_case,
     quick=60,
-    thorough=1200,
+    thorough=2400,
     tol="sum 1 +- 1e-4 per member and thickness; lazy == eager 1e-10 absolute; member == separately rotated crystal 1e-6 (float32 array)",
     rule=">=2 orientations and some beam other than (000) exceeds 1e-3",
-    nontrivial_floor=0.25,
+    nontrivial_floor=0.2,
     max_shrink_calls=150,
 )
 def check_ensemble(case, ctx):
